@@ -66,11 +66,13 @@ Ltac isT_conc :=
          | |- context [isT tPeriod ?k] => let b := eval vm_compute in (isT tPeriod k) in change (isT tPeriod k) with b
          end.
 
+Ltac len_norm H := repeat (progress (rewrite ?app_length in H; cbn [length] in H)).
 Ltac in_sub := let a := fresh "a" in let Ha := fresh "Ha" in intros a Ha; cbn [In] in *; tauto.
 
 (* clause keywords after the FROM clause, in order, and what may follow a SELECT *)
 Definition Tstop : list tty := [TyEOF; TySemicolon; TyRParen; TyUnion; TyExcept; TyIntersect; TyReturning; TyOn].
-Definition T6 := TyFetch :: Tstop.
+Definition T7 := TyFor :: Tstop.
+Definition T6 := TyFetch :: T7.
 Definition T5 := TyOffset :: T6.
 Definition T4 := TyLimit :: T5.
 Definition T3 := TyOrder :: T4.
@@ -80,14 +82,28 @@ Definition T0 := TyWhere :: T1.
 Definition Tjoin : list tty := [TyJoin; TyInner; TyLeft; TyRight; TyFull; TyCross; TyNatural].
 Definition TJ0 := Tjoin ++ T0.
 Definition Titems := TyFrom :: T0.
-Ltac in_sub2 := let a := fresh "a" in let Ha := fresh "Ha" in intros a Ha; unfold Titems, TJ0, Tjoin, T0, T1, T2, T3, T4, T5, T6, Tstop in *; cbn [In app] in *; tauto.
+Ltac in_sub2 := let a := fresh "a" in let Ha := fresh "Ha" in intros a Ha; unfold Titems, TJ0, Tjoin, T0, T1, T2, T3, T4, T5, T6, T7, Tstop in *; cbn [In app] in *; tauto.
 
 Lemma sel_follow_hd : forall stop, sel_follow stop -> hd_in Tstop stop.
 Proof.
-  intros stop (t & rest & E & H). subst stop. unfold sel_stop in H. apply andb_prop in H. destruct H as [H Hs].
+  intros stop (t & rest & E & H). subst stop. unfold sel_stop in H. apply andb_prop in H. destruct H as [H _].
+  apply andb_prop in H. destruct H as [H Hs].
   split; [|exact Hs]. cbn [cur]. unfold tyin, Tstop. cbn [existsb]. unfold isT in H.
   rewrite orb_false_r. repeat rewrite orb_assoc in *. exact H.
 Qed.
+
+Lemma sel_follow_lit : forall stop, sel_follow stop -> for_word (lit (cur stop)) = false.
+Proof.
+  intros stop (t & rest & E & H). subst stop. unfold sel_stop in H. apply andb_prop in H. destruct H as [_ H].
+  apply negb_true_iff in H. exact H.
+Qed.
+
+(* decide [litfold] on tokens of a known text *)
+Ltac lf_conc :=
+  repeat match goal with
+         | |- context [litfold (Tk ?a ?s) ?k] =>
+             let b := eval vm_compute in (eqfold s k) in change (litfold (Tk a s) k) with b
+         end.
 
 (* an optional clause in front of a remainder: the head is the clause keyword or the head of the remainder *)
 Lemma hd_opt : forall {A} (kwt : tty) (kws : string) (more : list token) (f : A -> list token) (o : option A) l R,
@@ -280,7 +296,7 @@ Section SP.
     - unfold ps_offset. hd_rw HR. reflexivity.
   Qed.
 
-  Lemma ps_fetch_ok : forall o R, optb (fun f => number_ok (ft_count f)) o = true -> hd_in Tstop R ->
+  Lemma ps_fetch_ok : forall o R, optb (fun f => number_ok (ft_count f)) o = true -> hd_in T7 R ->
       ps_fetch (fetch_toks o ++ R) = Val (option_map ast_of_fetch o, R).
   Proof.
     intros o R Hok HR. unfold fetch_toks. destruct o as [[nx cnt pct rows ties]|]; cbn [opt_clause app option_map optb ft_count] in *.
@@ -346,8 +362,92 @@ Section SP.
     cbn [bind advance app]. reflexivity.
   Qed.
 
+  (* GROUPING SETS ( set, ... ) *)
+  Definition colref_toks (e : mexpr) : list token :=
+    match e with
+    | MIdent q n => [Tk (if q then TyDQuoted else TyIdent) n]
+    | MQIdent t n => [Tk TyIdent t; Tk TyPeriod "."; Tk TyIdent n]
+    | _ => []
+    end.
+  Lemma colref_render : forall e (r : rho), is_column_ref e = true -> render 0 r e = wrap (r []) (colref_toks e).
+  Proof.
+    intros e r H. destruct e; try discriminate H; cbn [render colref_toks]; unfold parens; cbn [level_of Nat.ltb Nat.leb]; rewrite Nat.add_0_r; reflexivity.
+  Qed.
+  Lemma colref_depth : forall e (r : rho), is_column_ref e = true -> pdepth 0 r e = r [].
+  Proof.
+    intros e r H. destruct e; try discriminate H; cbn [pdepth]; unfold parens; cbn [level_of Nat.ltb Nat.leb]; lia.
+  Qed.
+
+  Definition gset_depth (sr : srho) (i : nat) (g : mgset) : nat :=
+    match g with GsList es => exprs_depth sr cl_group i es | GsBare e => pdepth 0 (sr cl_group i) e end.
+
+  Lemma gs_set_ok : forall g (sr : srho) i d X,
+      gset_ok g = true -> stops 0 (cur X) = true ->
+      S d + gset_depth sr i g <= md -> length (gset_toks sr i g ++ X) < fuel ->
+      parse_gs_set pe d (gset_toks sr i g ++ X) = Val (ast_of_gset g, X).
+  Proof.
+    intros g sr i d X Hok HX Hdep Hlen. unfold parse_gs_set.
+    destruct g as [es|e]; cbn [gset_toks gset_ok gset_depth ast_of_gset] in *.
+    - cbn [app cur advance]. isT_conc. cbn iota.
+      destruct es as [|e0 tl].
+      + cbn [exprs_toks sep_by app cur advance map]. isT_conc. cbn iota. reflexivity.
+      + rewrite <- app_assoc. cbn [app].
+        rewrite (exprs_head_not sr cl_group i e0 tl (tRP :: X) TyRParen eq_refl).
+        cbn [app] in Hlen. rewrite <- app_assoc in Hlen. cbn [app length] in Hlen.
+        rewrite (grouping_exprs_ok (e0 :: tl) Hok ltac:(discriminate) sr cl_group i d [] X); [|exact Hdep|lia|lia].
+        cbn [bind advance app]. reflexivity.
+    - apply andb_prop in Hok. destruct Hok as [Hcol Href].
+      pose proof (colref_render e (sr cl_group i) Hcol) as Er. pose proof (colref_depth e (sr cl_group i) Hcol) as Ed.
+      destruct (sr cl_group i []) as [|k] eqn:Ek.
+      + assert (Hh : isT (cur (render 0 (sr cl_group i) e ++ X)) TyLParen = false).
+        { rewrite Er. cbn [wrap]. destruct e; try discriminate Hcol; [destruct quoted|]; reflexivity. }
+        rewrite Hh. rewrite pe_item; [reflexivity|exact Href|exact HX|exact Hdep|exact Hlen].
+      + set (r' := (fun _ : list nat => k) : rho).
+        assert (Er' : wrap k (colref_toks e) = render 0 r' e) by (rewrite (colref_render e r' Hcol); reflexivity).
+        rewrite Er in *. cbn [wrap] in *. rewrite Er' in *. cbn [app cur advance] in *. isT_conc. cbn iota.
+        rewrite <- app_assoc in *. cbn [app] in *.
+        rewrite (head_isT_not e 0 r' (tRP :: X) TyRParen eq_refl).
+        cbn [length] in Hlen.
+        pose proof (grouping_exprs_ok [e]) as G. cbn [forallb exprs_toks sep_by exprs_depth map] in G.
+        rewrite (G ltac:(rewrite Href; reflexivity) ltac:(discriminate) (fun _ _ => r') 0 0 d [] X).
+        * cbn [bind advance app]. reflexivity.
+        * rewrite (colref_depth e r' Hcol). unfold r'. lia.
+        * lia.
+        * lia.
+  Qed.
+
+  Lemma gsets_sep_cons2 : forall (sr : srho) i g g2 tl,
+      sep_by [tComma] (gsets_toks sr i (g :: g2 :: tl))
+      = gset_toks sr i g ++ tComma :: sep_by [tComma] (gsets_toks sr (i + gset_size g) (g2 :: tl)).
+  Proof. reflexivity. Qed.
+
+  Lemma gs_sets_ok : forall l, forallb gset_ok l = true -> l <> [] ->
+      forall (sr : srho) i d acc X n,
+        S d + gsets_depth sr i l <= md ->
+        length (sep_by [tComma] (gsets_toks sr i l) ++ tRP :: X) < fuel ->
+        length (sep_by [tComma] (gsets_toks sr i l) ++ tRP :: X) < n ->
+        gs_sets pe n d acc (sep_by [tComma] (gsets_toks sr i l) ++ tRP :: X) = Val (acc ++ map ast_of_gset l, tRP :: X).
+  Proof.
+    induction l as [|g tl IH]; intros Hok Hne sr i d acc X n Hdep Hlen Hn; [contradiction|].
+    cbn [forallb] in Hok. apply andb_prop in Hok. destruct Hok as [Hg Htl].
+    cbn [gsets_depth] in Hdep. fold (gset_depth sr i g) in Hdep.
+    destruct n as [|n]; [lia|].
+    destruct tl as [|g2 tl'].
+    - cbn [gsets_toks sep_by] in *. cbn [gs_sets].
+      rewrite gs_set_ok; [|exact Hg|reflexivity|lia|exact Hlen].
+      cbn [bind cur]. isT_conc. cbn iota. reflexivity.
+    - rewrite gsets_sep_cons2 in *. rewrite <- app_assoc in *. cbn [app] in *.
+      rewrite app_length in Hlen, Hn. cbn [length] in Hlen, Hn.
+      cbn [gs_sets].
+      rewrite gs_set_ok; [|exact Hg|reflexivity|lia|rewrite app_length; cbn [length]; lia].
+      cbn [bind cur advance]. isT_conc. cbn iota. cbn [negb].
+      rewrite (IH Htl ltac:(discriminate) sr (i + gset_size g) d (acc ++ [ast_of_gset g]) X n); [|lia|lia|lia].
+      rewrite <- app_assoc. reflexivity.
+  Qed.
+
   Definition group_item_depth (sr : srho) (i : nat) (g : mgroup) : nat :=
-    match g with GrExpr e => pdepth 0 (sr cl_group i) e | GrRollup es | GrCube es => exprs_depth sr cl_group i es end.
+    match g with GrExpr e => pdepth 0 (sr cl_group i) e | GrRollup es | GrCube es => exprs_depth sr cl_group i es
+            | GrSets sets => gsets_depth sr i sets end.
 
   (* one round of the GROUP BY loop *)
   Lemma group_step : forall g (sr : srho) i X d n acc,
@@ -358,7 +458,7 @@ Section SP.
         else Val (acc ++ [ast_of_group g], X).
   Proof.
     intros g sr i X d n acc Hok HX Hdep Hlen. cbn [group_list].
-    destruct g as [e|es|es]; cbn [group_item_toks group_ok group_item_depth ast_of_group] in *.
+    destruct g as [e|es|es|sets]; cbn [group_item_toks group_ok group_item_depth ast_of_group] in *.
     - rhd. cbn [orb andb]. rewrite pe_item; [|assumption|assumption|assumption|assumption]. cbn [bind]. reflexivity.
     - apply andb_prop in Hok. destruct Hok as [Hne Href].
       cbn [app cur advance] in *. isT_conc. cbn iota. rewrite <- app_assoc in *. cbn [app] in *.
@@ -368,6 +468,14 @@ Section SP.
       cbn [app cur advance] in *. isT_conc. cbn iota. rewrite <- app_assoc in *. cbn [app] in *.
       rewrite grouping_list_ok; [|exact Href|destruct es; [discriminate|discriminate]|exact Hdep|cbn [length] in *; lia].
       cbn [bind]. reflexivity.
+    - apply andb_prop in Hok. destruct Hok as [Hne Href].
+      cbn [app cur advance lit] in *. isT_conc. cbn iota.
+      change (String.eqb "GROUPING SETS" "GROUPING SETS") with true. cbn [orb andb]. cbn iota.
+      unfold parse_grouping_sets. cbn [cur advance lit].
+      change (String.eqb "GROUPING SETS" "GROUPING SETS") with true. cbn iota. cbn [bind cur advance]. isT_conc. cbn iota. cbn [negb].
+      rewrite <- app_assoc in *. cbn [app] in *. cbn [length] in Hlen.
+      rewrite gs_sets_ok; [|exact Href|destruct sets; [discriminate|discriminate]|exact Hdep|lia|lia].
+      cbn [bind advance app]. reflexivity.
   Qed.
 
   Lemma groups_sep_cons2 : forall (sr : srho) i g g2 tl,
@@ -396,7 +504,7 @@ Section SP.
       rewrite group_step; [|assumption|reflexivity|lia|rewrite app_length; cbn [length]; lia].
       cbn [cur advance]. change (isT tComma TyComma) with true. cbn iota.
       assert (Hgl : 1 <= length (group_item_toks sr i g)).
-      { destruct g as [e|es|es]; cbn [group_item_toks length]; try lia.
+      { destruct g as [e|es|es|sets]; cbn [group_item_toks length]; try lia.
         destruct (render_head e 0 (sr cl_group i)) as (tk & tl0 & E & _). rewrite E. cbn [length]. lia. }
       rewrite (IH Hrtl ltac:(discriminate) sr (i + group_size g) d (acc ++ [ast_of_group g]) R n HR); [|lia|lia|lia].
       rewrite <- app_assoc. reflexivity.
@@ -669,6 +777,57 @@ Section SP.
   Qed.
 
   (* ---------------------------------------------------------------------------------------------- *)
+  (* the locking clause FOR ... [OF t, ...] [NOWAIT | SKIP LOCKED] *)
+  Lemma for_word_split : forall s, for_word s = false -> eqfold s "OF" = false /\ eqfold s "NOWAIT" = false /\ eqfold s "SKIP" = false.
+  Proof.
+    intros s H. unfold for_word in H. apply orb_false_elim in H. destruct H as [H H3]. apply orb_false_elim in H. destruct H as [H1 H2]. auto.
+  Qed.
+
+  Lemma ps_for_ok : forall o R, hd_in Tstop R -> for_word (lit (cur R)) = false ->
+      ps_for (for_toks o ++ R) = Val (option_map ast_of_for o, R).
+  Proof.
+    intros o R HR Hw. destruct (for_word_split _ Hw) as (Hof & Hnw & Hsk).
+    unfold for_toks. destruct o as [[lk tbls wt]|]; cbn [opt_clause app option_map].
+    - unfold ps_for, ast_of_for. cbn [fr_lock fr_of fr_wait cur advance]. isT_conc. cbn iota.
+      (* after the lock words *)
+      assert (Htail : forall lks,
+                 (do (tables, ts) <- (if litfold (cur (of_toks tbls ++ wait_toks wt ++ R)) "OF"
+                                      then let ts := advance (of_toks tbls ++ wait_toks wt ++ R) in
+                                           ident_list (S (length ts)) [] ts
+                                      else Val ([], of_toks tbls ++ wait_toks wt ++ R));
+                  if litfold (cur ts) "NOWAIT" then Val (Some (GFor lks tables true false), advance ts)
+                  else if litfold (cur ts) "SKIP" then
+                    let ts := advance ts in
+                    if negb (litfold (cur ts) "LOCKED") then Err EExpected else Val (Some (GFor lks tables false true), advance ts)
+                  else Val (Some (GFor lks tables false false), ts))
+                 = Val (Some (GFor lks tbls (match wt with WtNowait => true | _ => false end) (match wt with WtSkipLocked => true | _ => false end)), R)).
+      { intros lks.
+        assert (Hwait : forall tb, (if litfold (cur (wait_toks wt ++ R)) "NOWAIT" then Val (Some (GFor lks tb true false), advance (wait_toks wt ++ R))
+                          else if litfold (cur (wait_toks wt ++ R)) "SKIP" then
+                            let ts := advance (wait_toks wt ++ R) in
+                            if negb (litfold (cur ts) "LOCKED") then Err EExpected else Val (Some (GFor lks tb false true), advance ts)
+                          else Val (Some (GFor lks tb false false), wait_toks wt ++ R))
+                         = Val (Some (GFor lks tb (match wt with WtNowait => true | _ => false end) (match wt with WtSkipLocked => true | _ => false end)), R)).
+        { intros tb. destruct wt; cbn [wait_toks app cur advance].
+          - unfold litfold. rewrite Hnw, Hsk. reflexivity.
+          - lf_conc. cbn iota. reflexivity.
+          - lf_conc. cbn iota. cbn [negb]. reflexivity. }
+        destruct tbls as [|c l]; cbn [of_toks].
+        - cbn [app].
+          assert (Hno : litfold (cur (wait_toks wt ++ R)) "OF" = false).
+          { destruct wt; cbn [wait_toks app cur]; [unfold litfold; exact Hof|reflexivity|reflexivity]. }
+          rewrite Hno. cbn [bind]. apply Hwait.
+        - cbn [app cur advance]. lf_conc. cbn iota. rewrite idents_toks_cons. cbn [app].
+          rewrite ident_list_tail_ok.
+          + cbn [bind app]. apply Hwait.
+          + destruct wt; cbn [wait_toks app cur]; [apply (hd_isT Tstop R TyComma HR eq_refl)|reflexivity|reflexivity].
+          + cbn [length]. rewrite !app_length. lia. }
+      destruct lk; cbn [lock_toks app cur advance]; lf_conc; cbn iota; cbn [negb cur advance]; lf_conc; cbn iota; cbn [negb cur advance bind];
+        rewrite <- ?app_assoc; apply Htail.
+    - unfold ps_for. hd_rw HR. reflexivity.
+  Qed.
+
+  (* ---------------------------------------------------------------------------------------------- *)
   (* joins *)
   Lemma join_kind_ok : forall (nat : bool) side X,
       parse_join_kind ((if nat then [Tk TyNatural "NATURAL"] else []) ++ side_toks side ++ Tk TyJoin "JOIN" :: X)
@@ -908,7 +1067,7 @@ Section SP.
       negb (isT t TyFrom) && negb (isT t TyEOF) && negb (isT t TySemicolon) && negb (isT t TyRParen) && negb (is_setop t)
       && negb (is_clause_start t) = false.
   Proof.
-    intros t H. unfold tyin, Titems, T0, T1, T2, T3, T4, T5, T6, Tstop in H. cbn [existsb] in H. unfold is_setop, is_clause_start, isT.
+    intros t H. unfold tyin, Titems, T0, T1, T2, T3, T4, T5, T6, T7, Tstop in H. cbn [existsb] in H. unfold is_setop, is_clause_start, isT.
     destruct (tty_eqb (ty t) TyFrom); [reflexivity|].
     destruct (tty_eqb (ty t) TyEOF); [reflexivity|].
     destruct (tty_eqb (ty t) TySemicolon); [reflexivity|].
@@ -923,6 +1082,7 @@ Section SP.
     destruct (tty_eqb (ty t) TyLimit); [reflexivity|].
     destruct (tty_eqb (ty t) TyOffset); [reflexivity|].
     destruct (tty_eqb (ty t) TyFetch); [repeat rewrite orb_true_r; reflexivity|].
+    destruct (tty_eqb (ty t) TyFor); [repeat rewrite orb_true_r; reflexivity|].
     destruct (tty_eqb (ty t) TyReturning); [repeat rewrite orb_true_r; reflexivity|].
     destruct (tty_eqb (ty t) TyOn); [repeat rewrite orb_true_r; reflexivity|]. discriminate H.
   Qed.
@@ -940,24 +1100,26 @@ Section SP.
       length (select_tail_toks sr s ++ stop) < fuel ->
       parse_select md sf pe d (select_tail_toks sr s ++ stop) = Val (ast_of_select s, stop).
   Proof.
-    intros sr [dist don items from joins wh gb hv ob lim off fe] stop d Hok Hflag Hstop Hdep Hlen.
-    unfold select_ok in Hok. cbn [s_distinct s_distinct_on s_items s_from s_joins s_where s_group s_having s_order s_limit s_offset s_fetch] in Hok.
+    intros sr [dist don items from joins wh gb hv ob lim off fe fo] stop d Hok Hflag Hstop Hdep Hlen.
+    unfold select_ok in Hok. cbn [s_distinct s_distinct_on s_items s_from s_joins s_where s_group s_having s_order s_limit s_offset s_fetch s_for] in Hok.
     repeat (let H := fresh "Hk" in apply andb_prop in Hok; destruct Hok as [Hok H]).
     rename Hok into Hdon1. rename Hk11 into Hdon. rename Hk10 into Hne. rename Hk9 into Hitems. rename Hk8 into Hfrom. rename Hk7 into Hnojoin. rename Hk6 into Hjoins.
     rename Hk5 into Hwh. rename Hk4 into Hgb. rename Hk3 into Hhv. rename Hk2 into Hob. rename Hk1 into Hlim. rename Hk0 into Hoff. rename Hk into Hfe.
     unfold select_bare_alias_free in Hflag. cbn [s_items] in Hflag.
     unfold select_depth in Hdep. cbn [s_distinct_on s_items s_joins s_where s_group s_having s_order] in Hdep.
-    unfold select_tail_toks in *. cbn [s_distinct s_distinct_on s_items s_from s_joins s_where s_group s_having s_order s_limit s_offset s_fetch] in *.
-    pose proof (sel_follow_hd stop Hstop) as H7.
-    assert (H6 : hd_in T6 (fetch_toks fe ++ stop)) by (apply hd_opt; [exact H7|reflexivity]).
-    assert (H5 : hd_in T5 (offset_toks off ++ fetch_toks fe ++ stop)) by (apply hd_opt; [exact H6|reflexivity]).
-    assert (H4 : hd_in T4 (limit_toks lim ++ offset_toks off ++ fetch_toks fe ++ stop)) by (apply hd_opt; [exact H5|reflexivity]).
-    assert (H3 : hd_in T3 (orderby_toks sr ob ++ limit_toks lim ++ offset_toks off ++ fetch_toks fe ++ stop)) by (apply hd_list; [exact H4|reflexivity]).
-    assert (H2 : hd_in T2 (having_toks sr hv ++ orderby_toks sr ob ++ limit_toks lim ++ offset_toks off ++ fetch_toks fe ++ stop)) by (apply hd_opt; [exact H3|reflexivity]).
-    assert (H1 : hd_in T1 (group_toks sr gb ++ having_toks sr hv ++ orderby_toks sr ob ++ limit_toks lim ++ offset_toks off ++ fetch_toks fe ++ stop)) by (apply hd_list; [exact H2|reflexivity]).
-    assert (H0 : hd_in T0 (where_toks sr wh ++ group_toks sr gb ++ having_toks sr hv ++ orderby_toks sr ob ++ limit_toks lim ++ offset_toks off ++ fetch_toks fe ++ stop)) by (apply hd_opt; [exact H1|reflexivity]).
-    repeat (rewrite <- app_assoc in * ).
-    set (Rfe := fetch_toks fe ++ stop) in *.
+    unfold select_tail_toks in *. cbn [s_distinct s_distinct_on s_items s_from s_joins s_where s_group s_having s_order s_limit s_offset s_fetch s_for] in *.
+    pose proof (sel_follow_hd stop Hstop) as H8. pose proof (sel_follow_lit stop Hstop) as Hlit.
+    set (Rfo := for_toks fo ++ stop) in *.
+    assert (H7 : hd_in T7 Rfo) by (apply hd_opt; [exact H8|reflexivity]).
+    assert (H6 : hd_in T6 (fetch_toks fe ++ Rfo)) by (apply hd_opt; [exact H7|reflexivity]).
+    assert (H5 : hd_in T5 (offset_toks off ++ fetch_toks fe ++ Rfo)) by (apply hd_opt; [exact H6|reflexivity]).
+    assert (H4 : hd_in T4 (limit_toks lim ++ offset_toks off ++ fetch_toks fe ++ Rfo)) by (apply hd_opt; [exact H5|reflexivity]).
+    assert (H3 : hd_in T3 (orderby_toks sr ob ++ limit_toks lim ++ offset_toks off ++ fetch_toks fe ++ Rfo)) by (apply hd_list; [exact H4|reflexivity]).
+    assert (H2 : hd_in T2 (having_toks sr hv ++ orderby_toks sr ob ++ limit_toks lim ++ offset_toks off ++ fetch_toks fe ++ Rfo)) by (apply hd_opt; [exact H3|reflexivity]).
+    assert (H1 : hd_in T1 (group_toks sr gb ++ having_toks sr hv ++ orderby_toks sr ob ++ limit_toks lim ++ offset_toks off ++ fetch_toks fe ++ Rfo)) by (apply hd_list; [exact H2|reflexivity]).
+    assert (H0 : hd_in T0 (where_toks sr wh ++ group_toks sr gb ++ having_toks sr hv ++ orderby_toks sr ob ++ limit_toks lim ++ offset_toks off ++ fetch_toks fe ++ Rfo)) by (apply hd_opt; [exact H1|reflexivity]).
+    repeat (rewrite <- app_assoc in * ). fold Rfo in Hlen |- *.
+    set (Rfe := fetch_toks fe ++ Rfo) in *.
     set (Ro := offset_toks off ++ Rfe) in *.
     set (Rl := limit_toks lim ++ Ro) in *.
     set (Rob := orderby_toks sr ob ++ Rl) in *.
@@ -1014,7 +1176,7 @@ Section SP.
     subst Rl. rewrite ps_limit_ok; [|exact Hlim|exact H5]. cbn [bind].
     subst Ro. rewrite ps_offset_ok; [|exact Hoff|exact H6]. cbn [bind].
     subst Rfe. rewrite ps_fetch_ok; [|exact Hfe|exact H7]. cbn [bind].
-    hd_rw H7. reflexivity.
+    subst Rfo. rewrite ps_for_ok; [|exact H8|exact Hlit]. cbn [bind]. reflexivity.
   Qed.
 End SP.
 
@@ -1023,13 +1185,14 @@ End SP.
 Lemma query_follow_sel : forall stop, query_follow stop -> sel_follow stop.
 Proof.
   intros stop (t & rest & E & H). exists t, rest. split; [exact E|]. unfold query_stop in H. unfold sel_stop.
-  apply andb_prop in H. destruct H as [H Hs]. rewrite Hs, andb_true_r.
+  apply andb_prop in H. destruct H as [H Hw]. apply andb_prop in H. destruct H as [H Hs]. rewrite Hs, Hw, !andb_true_r.
   repeat (apply orb_prop in H; destruct H as [H|H]); rewrite H; repeat rewrite orb_true_r; reflexivity.
 Qed.
 
 Lemma query_follow_no_setop : forall stop, query_follow stop -> is_setop (cur stop) = false.
 Proof.
   intros stop (t & rest & E & H). subst stop. cbn [cur]. unfold query_stop in H. apply andb_prop in H. destruct H as [H _].
+  apply andb_prop in H. destruct H as [H _].
   unfold is_setop, isT in *.
   repeat (apply orb_prop in H; destruct H as [H|H]);
     unfold tty_eqb in *; apply N.eqb_eq in H; rewrite H; reflexivity.
@@ -1054,7 +1217,7 @@ Qed.
 
 (* the defect switch of the tree: an alias without AS after a bare column reference is not read *)
 Definition w_bare_alias : mselect :=
-  MkSelect false [] [IExpr (MIdent false "a") (Some (false, "b"))] [MkTable ["t"] None] [] None [] None [] None None None.
+  MkSelect false [] [IExpr (MIdent false "a") (Some (false, "b"))] [MkTable ["t"] None] [] None [] None [] None None None None.
 
 Theorem parse_render_select_refuted_bare_alias :
   exists s stop, select_ok s = true /\ query_follow stop /\
@@ -1071,6 +1234,10 @@ Example ex_select_parse :
   = Val (GSelectS (ast_of_select ex_select), [Tk TyEOF ""]).
 Proof. vm_compute. reflexivity. Qed.
 Example ex_select_free : select_bare_alias_free ex_select = true. Proof. reflexivity. Qed.
+Example ex_select_lock_parse :
+  parse_statement_top tree_flags (render_select (fun _ _ => no_parens) ex_select_lock ++ [Tk TyEOF ""])
+  = Val (GSelectS (ast_of_select ex_select_lock), [Tk TyEOF ""]).
+Proof. vm_compute. reflexivity. Qed.
 
 (* ------------------------------------------------------------------------------------------------ *)
 (* set operations: a query is its first SELECT followed by (operator, ALL?, SELECT) steps, left-nested *)
@@ -1216,7 +1383,8 @@ Definition Ton := TyOn :: Tret.
 
 Lemma stmt_follow_hd : forall stop, stmt_follow stop -> hd_in Tq stop /\ String.eqb (lit (cur stop)) "RETURNING" = false.
 Proof.
-  intros stop (t & rest & E & H). subst stop. unfold stmt_stop in H. apply andb_prop in H. destruct H as [H Hl].
+  intros stop (t & rest & E & H). subst stop. unfold stmt_stop in H. apply andb_prop in H. destruct H as [H _].
+  apply andb_prop in H. destruct H as [H Hl].
   apply andb_prop in H. destruct H as [H Hs]. apply negb_true_iff in Hl. split; [|exact Hl].
   split; [|exact Hs]. cbn [cur]. unfold tyin, Tq. cbn [existsb]. unfold isT in H. rewrite orb_false_r. repeat rewrite orb_assoc in *. exact H.
 Qed.
@@ -1224,7 +1392,8 @@ Qed.
 Lemma stmt_follow_query : forall stop, stmt_follow stop -> query_follow stop.
 Proof.
   intros stop (t & rest & E & H). exists t, rest. split; [exact E|]. unfold stmt_stop in H. unfold query_stop.
-  apply andb_prop in H. destruct H as [H _]. apply andb_prop in H. destruct H as [H Hs]. rewrite Hs, andb_true_r.
+  apply andb_prop in H. destruct H as [H Hw]. apply andb_prop in H. destruct H as [H _]. apply andb_prop in H. destruct H as [H Hs].
+  rewrite Hs, Hw, !andb_true_r.
   repeat (apply orb_prop in H; destruct H as [H|H]); rewrite H; repeat rewrite orb_true_r; reflexivity.
 Qed.
 
@@ -1681,6 +1850,213 @@ Section Stmts.
   Qed.
 
   (* ---------------------------------------------------------------------------------------------- *)
+  (* MERGE *)
+  Definition Tw : list tty := TyWhen :: Tq.
+
+  Lemma merge_alias_ok : forall kwt kws a X,
+      malias_ok kws a = true -> tty_eqb TyIdent kwt = false -> tty_eqb kwt TyAs = false ->
+      parse_merge_alias kwt kws (alias_toks a ++ Tk kwt kws :: X) = Val (alias_name a, Tk kwt kws :: X).
+  Proof.
+    intros kwt kws a X Hok Hi Ha. unfold parse_merge_alias.
+    destruct a as [[[|] n]|]; cbn [alias_toks app cur advance alias_name malias_ok] in *.
+    - isT_conc. cbn iota. unfold is_identifier. isT_conc. cbn [orb negb andb lit]. reflexivity.
+    - unfold can_be_alias, is_identifier, isT. cbn [ty lit]. rewrite Hi, Hok. reflexivity.
+    - unfold isT at 1. cbn [ty]. rewrite Ha.
+      assert (Hk : isT (Tk kwt kws) kwt = true) by (unfold isT, tty_eqb; cbn [ty]; apply N.eqb_refl).
+      rewrite Hk. cbn [negb andb]. rewrite andb_false_r. reflexivity.
+  Qed.
+
+  Lemma msets_sep_cons2 : forall (sr : srho) i c e x tl,
+      sep_by [tComma] (msets_toks sr i ((c, e) :: x :: tl))
+      = (mcol_toks c ++ Tk TyEq "=" :: render 0 (sr cl_mset i) e) ++ tComma :: sep_by [tComma] (msets_toks sr (S i) (x :: tl)).
+  Proof. intros. destruct x. reflexivity. Qed.
+
+  Definition ast_of_mset (ce : mcol * mexpr) : string * gexpr := (mcol_str (fst ce), ast_of (snd ce)).
+
+  (* one SET clause of WHEN ... THEN UPDATE, followed by X *)
+  Lemma merge_set_step : forall c e (r : rho) X d n acc,
+      ref_expr e = true -> stops 0 (cur X) = true ->
+      S d + pdepth 0 r e <= md -> length ((mcol_toks c ++ Tk TyEq "=" :: render 0 r e) ++ X) < fuel ->
+      merge_set_list pe (S n) d acc ((mcol_toks c ++ Tk TyEq "=" :: render 0 r e) ++ X)
+      = if isT (cur X) TyComma then merge_set_list pe n d (acc ++ [ast_of_mset (c, e)]) (advance X)
+        else Val (acc ++ [ast_of_mset (c, e)], X).
+  Proof.
+    intros [[t|] nm] e r X d n acc Href HX Hdep Hlen; cbn [mcol_toks app] in *; rewrite <- ?app_assoc in *; cbn [app length] in *.
+    - cbn [merge_set_list cur advance]. unfold is_identifier. isT_conc. cbn [orb negb andb lit]. cbn iota.
+      cbn [cur advance]. isT_conc. cbn [orb negb andb lit]. cbn iota. cbn [bind cur advance]. isT_conc. cbn iota. cbn [negb].
+      rewrite (pe_item md fuel); [|exact Href|exact HX|exact Hdep|lia].
+      cbn [rewrap bind]. unfold ast_of_mset, mcol_str. cbn [fst snd]. reflexivity.
+    - cbn [merge_set_list cur advance]. unfold is_identifier. isT_conc. cbn [orb negb andb lit]. cbn iota.
+      cbn [bind cur advance]. isT_conc. cbn iota. cbn [negb].
+      rewrite (pe_item md fuel); [|exact Href|exact HX|exact Hdep|lia].
+      cbn [rewrap bind]. unfold ast_of_mset, mcol_str. cbn [fst snd]. reflexivity.
+  Qed.
+
+  Lemma merge_set_list_ok : forall l, forallb (fun ce : mcol * mexpr => ref_expr (snd ce)) l = true -> l <> [] ->
+      forall (sr : srho) i d acc R n L,
+        hd_in L R -> notin TyComma L = true ->
+        S d + msets_depth sr i l <= md ->
+        length (sep_by [tComma] (msets_toks sr i l) ++ R) < fuel ->
+        length (sep_by [tComma] (msets_toks sr i l) ++ R) < n ->
+        merge_set_list pe n d acc (sep_by [tComma] (msets_toks sr i l) ++ R) = Val (acc ++ map ast_of_mset l, R).
+  Proof.
+    induction l as [|[c e] tl IH]; intros Href Hne sr i d acc R n L HR HL Hdep Hlen Hn; [contradiction|].
+    cbn [forallb snd] in Href. apply andb_prop in Href. destruct Href as [Hre Hrtl].
+    cbn [msets_depth] in Hdep.
+    destruct n as [|n]; [lia|].
+    destruct tl as [|x tl'].
+    - cbn [msets_toks sep_by] in *.
+      rewrite merge_set_step; [|exact Hre|apply HR|lia|exact Hlen].
+      rewrite (hd_isT L R TyComma HR HL). reflexivity.
+    - rewrite msets_sep_cons2 in *. rewrite <- (app_assoc _ (tComma :: _) R) in *. cbn [app] in *.
+      rewrite app_length in Hlen, Hn. cbn [length] in Hlen, Hn.
+      rewrite merge_set_step; [|exact Hre|reflexivity|lia|rewrite app_length; cbn [length]; lia].
+      cbn [cur advance]. change (isT tComma TyComma) with true. cbn iota.
+      rewrite (IH Hrtl ltac:(discriminate) sr (S i) d (acc ++ [ast_of_mset (c, e)]) R n L HR HL); [|lia|lia|lia].
+      rewrite <- app_assoc. reflexivity.
+  Qed.
+
+  Lemma ast_of_action_update : forall sets, ast_of_action (MaUpdate sets) = GAction "UPDATE" (map ast_of_mset sets) [] [] false.
+  Proof. reflexivity. Qed.
+
+  (* parseMergeAction *)
+  Lemma merge_action_ok : forall a k (sr : srho) is_ iv d R,
+      action_ok k a = true -> hd_in Tw R ->
+      S d + action_depth sr is_ iv a <= md -> length (action_toks sr is_ iv a ++ R) < fuel ->
+      parse_merge_action pe d (kind_str k) (action_toks sr is_ iv a ++ R) = Val (ast_of_action a, R).
+  Proof.
+    intros a k sr is_ iv d R Hok HR Hdep Hlen. unfold parse_merge_action.
+    destruct a as [sets| |cols vals]; cbn [action_toks action_ok action_depth] in *.
+    - apply andb_prop in Hok. destruct Hok as [Hok _]. apply andb_prop in Hok. destruct Hok as [Hne Href].
+      cbn [app cur advance] in *. isT_conc. cbn iota. cbn [negb]. cbn [length] in Hlen.
+      rewrite merge_set_list_ok with (L := Tw); [|exact Href|destruct sets; [discriminate|discriminate]|exact HR|reflexivity|exact Hdep|lia|lia].
+      cbn [bind app]. rewrite ast_of_action_update. reflexivity.
+    - cbn [app cur advance]. isT_conc. cbn iota.
+      destruct k; [reflexivity|discriminate Hok|reflexivity].
+    - apply andb_prop in Hok. destruct Hok as [Hvals Hk].
+      destruct k; try discriminate Hk. cbn [kind_str]. cbn [app cur advance]. isT_conc. cbn iota.
+      change (String.eqb "NOT_MATCHED" "MATCHED" || String.eqb "NOT_MATCHED" "NOT_MATCHED_BY_SOURCE") with false. cbn iota.
+      rewrite <- app_assoc.
+      rewrite cols_list_ok by (destruct vals; reflexivity).
+      cbn [bind].
+      destruct vals as [vs|]; cbn [app cur advance]; isT_conc; cbn iota; cbn [negb cur advance]; isT_conc; cbn iota; [|reflexivity].
+      apply andb_prop in Hvals. destruct Hvals as [Hvne Hvref].
+      assert (HRP : hd_in [TyRParen] (tRP :: R)) by (split; reflexivity).
+      rewrite <- app_assoc. cbn [app].
+      cbn [app length] in Hlen. rewrite !app_length in Hlen. cbn [length] in Hlen. rewrite !app_length in Hlen. cbn [length] in Hlen.
+      rewrite (expr_list_ok md fuel vs Hvref ltac:(destruct vs; [discriminate|discriminate]) sr cl_mvals iv d [] (tRP :: R) _ [TyRParen] HRP eq_refl);
+        [|exact Hdep|rewrite app_length; cbn [length]; lia|rewrite app_length; cbn [length]; lia].
+      cbn [rewrap bind cur advance app]. isT_conc. cbn iota. reflexivity.
+  Qed.
+
+  (* parseMergeWhenClause *)
+  Lemma merge_when_ok : forall w (sr : srho) k is_ iv d R,
+      when_ok w = true -> hd_in Tw R ->
+      S d + Nat.max (opt_depth (sr cl_mcond k) (wn_cond w)) (action_depth sr is_ iv (wn_action w)) <= md ->
+      length (when_toks sr k is_ iv w ++ R) < fuel ->
+      parse_merge_when pe d (when_toks sr k is_ iv w ++ R) = Val (ast_of_when w, R).
+  Proof.
+    intros [kd cond act] sr k is_ iv d R Hok HR Hdep Hlen. unfold when_ok in Hok. cbn [wn_kind wn_cond wn_action] in *.
+    apply andb_prop in Hok. destruct Hok as [Hc Ha].
+    unfold when_toks, ast_of_when in *. cbn [wn_kind wn_cond wn_action] in *.
+    unfold parse_merge_when. cbn [app advance].
+    assert (Hact : parse_merge_action pe d (kind_str kd) (action_toks sr is_ iv act ++ R) = Val (ast_of_action act, R)).
+    { apply merge_action_ok; [exact Ha|exact HR|lia|].
+      len_norm Hlen. rewrite app_length. lia. }
+    assert (Hrest : forall Y, Y = opt_clause [Tk TyAnd "AND"] (render 0 (sr cl_mcond k)) cond ++ Tk TyThen "THEN" :: action_toks sr is_ iv act ++ R ->
+               (do (cond0, ts) <- (if isT (cur Y) TyAnd then do (c, ts1) <- rewrap EInvalid (pe d (advance Y)); Val (Some c, ts1) else Val (None, Y));
+                if negb (isT (cur ts) TyThen) then Err EExpected
+                else do (a, ts1) <- parse_merge_action pe d (kind_str kd) (advance ts); Val (GWhen (kind_str kd) cond0 a, ts1))
+               = Val (GWhen (kind_str kd) (option_map ast_of cond) (ast_of_action act), R)).
+    { intros Y ->. destruct cond as [c|]; cbn [opt_clause app cur advance option_map optb opt_depth] in *.
+      - isT_conc. cbn iota.
+        rewrite (pe_item md fuel); [|exact Hc|reflexivity|lia|].
+        + cbn [rewrap bind cur advance]. isT_conc. cbn iota. cbn [negb]. rewrite Hact. reflexivity.
+        + len_norm Hlen. rewrite app_length. cbn [length]. rewrite app_length. lia.
+      - isT_conc. cbn iota. cbn [bind cur advance]. isT_conc. cbn iota. cbn [negb]. rewrite Hact. reflexivity. }
+    rewrite <- !app_assoc.
+    destruct kd; cbn [kind_toks app cur advance lit kind_str] in *; isT_conc; cbn [orb]; cbn iota; cbn [negb andb cur advance]; isT_conc; cbn iota;
+      cbn [negb andb cur advance bind].
+    - apply Hrest. reflexivity.
+    - assert (Hby : isT (cur (opt_clause [Tk TyAnd "AND"] (render 0 (sr cl_mcond k)) cond ++ Tk TyThen "THEN" :: action_toks sr is_ iv act ++ R)) TyBy = false)
+        by (destruct cond; reflexivity).
+      rewrite Hby. cbn [bind]. apply Hrest. reflexivity.
+    - isT_conc. cbn iota. cbn [negb andb cur advance bind]. apply Hrest. reflexivity.
+  Qed.
+
+  Lemma whens_hd : forall (sr : srho) k is_ iv l stop, hd_in Tq stop -> hd_in Tw (whens_toks sr k is_ iv l ++ stop).
+  Proof.
+    intros sr k is_ iv l stop H. destruct l as [|w tl]; cbn [whens_toks app].
+    - eapply hd_weaken; [exact H|unfold Tw; in_sub].
+    - unfold when_toks. cbn [app]. split; reflexivity.
+  Qed.
+
+  Lemma merge_whens_ok : forall l, forallb when_ok l = true ->
+      forall (sr : srho) k is_ iv d acc stop n,
+        hd_in Tq stop ->
+        S d + whens_depth sr k is_ iv l <= md ->
+        length (whens_toks sr k is_ iv l ++ stop) < fuel ->
+        length (whens_toks sr k is_ iv l ++ stop) < n ->
+        merge_whens pe n d acc (whens_toks sr k is_ iv l ++ stop) = Val (acc ++ map ast_of_when l, stop).
+  Proof.
+    induction l as [|w tl IH]; intros Hok sr k is_ iv d acc stop n HR Hdep Hlen Hn; (destruct n as [|n]; [lia|]).
+    - cbn [whens_toks app merge_whens map]. rewrite (hd_isT Tq stop TyWhen HR eq_refl). rewrite app_nil_r. reflexivity.
+    - cbn [forallb] in Hok. apply andb_prop in Hok. destruct Hok as [Hw Htl].
+      cbn [whens_toks whens_depth map] in *. rewrite <- app_assoc in *.
+      rewrite app_length in Hlen, Hn.
+      cbn [merge_whens].
+      assert (Hh : isT (cur (when_toks sr k is_ iv w ++ whens_toks sr (S k) (is_ + action_sets (wn_action w)) (iv + action_vals (wn_action w)) tl ++ stop)) TyWhen = true)
+        by reflexivity.
+      rewrite Hh.
+      rewrite merge_when_ok; [|exact Hw|apply whens_hd; exact HR|lia|rewrite app_length; lia].
+      cbn [bind].
+      assert (Hwl : 1 <= length (when_toks sr k is_ iv w)) by (unfold when_toks; cbn [length]; lia).
+      rewrite IH; [|exact Htl|exact HR|lia|lia|lia].
+      rewrite <- app_assoc. reflexivity.
+  Qed.
+
+  Lemma parse_merge_ok : forall (sr : srho) m stop d,
+      merge_ok m = true -> stmt_follow stop ->
+      S d + merge_depth sr m <= md ->
+      length (merge_toks sr m ++ stop) <= fuel ->
+      exists tail, merge_toks sr m ++ stop = Tk TyMerge "MERGE" :: tail /\ parse_merge pe d tail = Val (ast_of_merge m, stop).
+  Proof.
+    intros sr [into tg ta src sa on whens] stop d Hok Hstop Hdep Hlen.
+    unfold merge_ok in Hok. cbn [mg_into mg_target mg_talias mg_source mg_salias mg_on mg_whens] in Hok.
+    repeat (let H := fresh "Hk" in apply andb_prop in Hok; destruct Hok as [Hok H]).
+    rename Hok into Htg. rename Hk4 into Hsrc. rename Hk3 into Hta. rename Hk2 into Hsa. rename Hk1 into Hon. rename Hk0 into Hwne. rename Hk into Hwhens.
+    destruct tg as [|p ps]; [discriminate|]. destruct src as [|q qs]; [discriminate|].
+    destruct (stmt_follow_hd stop Hstop) as [HR _].
+    unfold merge_toks, merge_depth, ast_of_merge in *. cbn [mg_into mg_target mg_talias mg_source mg_salias mg_on mg_whens] in *.
+    eexists. split; [cbn [app]; reflexivity|].
+    repeat (cbn [app] in *; rewrite <- app_assoc in * ). cbn [app] in *.
+    len_norm Hlen.
+    set (W := whens_toks sr 0 0 0 whens ++ stop) in *.
+    set (Ron := Tk TyOn "ON" :: render 0 (sr cl_mon 0) on ++ W) in *.
+    set (Rus := Tk TyUsing "USING" :: path_toks (q :: qs) ++ alias_toks sa ++ Ron) in *.
+    unfold parse_merge.
+    assert (Hinto : (if isT (cur ((if into then [Tk TyInto "INTO"] else []) ++ path_toks (p :: ps) ++ alias_toks ta ++ Rus)) TyInto
+                     then advance ((if into then [Tk TyInto "INTO"] else []) ++ path_toks (p :: ps) ++ alias_toks ta ++ Rus)
+                     else (if into then [Tk TyInto "INTO"] else []) ++ path_toks (p :: ps) ++ alias_toks ta ++ Rus)
+                    = path_toks (p :: ps) ++ alias_toks ta ++ Rus).
+    { destruct into; cbn [app cur advance]; [reflexivity|]. rewrite path_head. reflexivity. }
+    rewrite Hinto.
+    rewrite qname_ok by (destruct ta as [[[|] n0]|]; reflexivity).
+    cbn [rewrap bind]. subst Rus.
+    rewrite merge_alias_ok; [|exact Hta|reflexivity|reflexivity].
+    cbn [bind cur advance lit]. isT_conc. cbn [negb andb]. cbn iota.
+    rewrite qname_ok by (destruct sa as [[[|] n0]|]; reflexivity).
+    cbn [rewrap bind]. subst Ron.
+    rewrite merge_alias_ok; [|exact Hsa|reflexivity|reflexivity].
+    cbn [bind cur advance]. isT_conc. cbn iota. cbn [negb].
+    pose proof (whens_hd sr 0 0 0 whens stop HR) as HW. fold W in HW.
+    rewrite (pe_item md fuel); [|exact Hon|apply HW|lia|subst W; rewrite !app_length; lia].
+    cbn [rewrap bind]. subst W.
+    rewrite merge_whens_ok; [|exact Hwhens|exact HR|lia|rewrite app_length; lia|lia].
+    cbn [bind app]. destruct whens as [|w0 wtl]; [discriminate Hwne|]. reflexivity.
+  Qed.
+
+  (* ---------------------------------------------------------------------------------------------- *)
   (* the statement after the optional WITH clause *)
   Definition main_dispatch (d : nat) (ts : list token) : sres gstmt :=
     if isT (cur ts) TySelect then parse_select_setops md sf pe d (advance ts)
@@ -1693,16 +2069,18 @@ Section Stmts.
     d_no_alias_after_column sf = false \/
     match b with BQuery q => query_bare_alias_free q | BInsert _ _ (inr q) _ _ => query_bare_alias_free q | _ => true end = true.
 
+  Definition not_merge (b : mbody) : Prop := match b with BMerge _ => False | _ => True end.
+
   Lemma body_ok_parse : forall (sr : srho) base b stop d,
-      body_ok b = true -> body_flag b -> stmt_follow stop ->
+      not_merge b -> body_ok b = true -> body_flag b -> stmt_follow stop ->
       d + body_depth sr base b <= md ->
       length (render_body sr base b ++ stop) <= fuel ->
       main_dispatch d (render_body sr base b ++ stop) = Val (ast_of_stmt (MkStmt None b), stop)
       /\ isT (cur (render_body sr base b ++ stop)) TyWith = false
       /\ isT (cur (render_body sr base b ++ stop)) TyComma = false.
   Proof.
-    intros sr base b stop d Hok Hflag Hstop Hdep Hlen. unfold main_dispatch, ast_of_stmt. cbn [st_with st_body ast_of_with option_map].
-    destruct b as [q|t cols src cf ret|t sets wh ret|t wh ret].
+    intros sr base b stop d Hnm Hok Hflag Hstop Hdep Hlen. unfold main_dispatch, ast_of_stmt. cbn [st_with st_body ast_of_with option_map].
+    destruct b as [q|t cols src cf ret|t sets wh ret|t wh ret|m]; [| | | |contradiction Hnm].
     - cbn [body_ok body_depth render_body] in *.
       destruct (query_ok_parse sr q base stop d Hok) as (tail & Etail & Hparse);
         [destruct Hflag as [Hf|Hb]; [left; exact Hf|right; exact Hb]|apply stmt_follow_query; exact Hstop|lia|exact Hlen|].
@@ -1729,19 +2107,20 @@ Section Stmts.
   Lemma set_with_body : forall w b, set_with w (ast_of_stmt (MkStmt None b)) = ast_of_stmt_w (Some w) b.
   Proof.
     intros w b. unfold ast_of_stmt, ast_of_stmt_w. cbn [st_with st_body ast_of_with option_map].
-    destruct b as [q|t cols src cf ret|t sets wh ret|t wh ret]; [|reflexivity|reflexivity|reflexivity].
+    destruct b as [q|t cols src cf ret|t sets wh ret|t wh ret|m]; [|reflexivity|reflexivity|reflexivity|reflexivity].
     change (ast_of_query_w None q) with (ast_of_query q). apply set_with_query.
   Qed.
 
-  Theorem parse_stmt_ok : forall (sr : srho) s stop d,
-      stmt_ok s = true -> (d_no_alias_after_column sf = false \/ stmt_bare_alias_free s = true) ->
+  Lemma parse_stmt_ok_nm : forall (sr : srho) w b stop d,
+      not_merge b ->
+      stmt_ok (MkStmt w b) = true -> (d_no_alias_after_column sf = false \/ stmt_bare_alias_free (MkStmt w b) = true) ->
       stmt_follow stop ->
-      d + stmt_depth sr s <= md ->
-      length (render_stmt sr s ++ stop) <= fuel ->
-      parse_statement md sf pe d (render_stmt sr s ++ stop) = Val (ast_of_stmt s, stop).
+      d + stmt_depth sr (MkStmt w b) <= md ->
+      length (render_stmt sr (MkStmt w b) ++ stop) <= fuel ->
+      parse_statement md sf pe d (render_stmt sr (MkStmt w b) ++ stop) = Val (ast_of_stmt (MkStmt w b), stop).
   Proof.
-    intros sr [w b] stop d Hok Hflag Hstop Hdep Hlen.
-    unfold stmt_ok in Hok. cbn [st_with st_body] in Hok. apply andb_prop in Hok. destruct Hok as [Hw Hb].
+    intros sr w b stop d Hnm Hok Hflag Hstop Hdep Hlen.
+    unfold stmt_ok in Hok. cbn [st_with st_body] in Hok. apply andb_prop in Hok. destruct Hok as [Hok _]. apply andb_prop in Hok. destruct Hok as [Hw Hb].
     unfold stmt_depth in Hdep. cbn [st_with st_body] in Hdep.
     unfold render_stmt in *. cbn [st_with st_body] in *.
     assert (Hbf : body_flag b).
@@ -1750,7 +2129,7 @@ Section Stmts.
     destruct w as [[rc ctes]|].
     - cbn [with_toks with_size w_rec w_ctes with_ok] in *. apply andb_prop in Hw. destruct Hw as [Hcne Hctes].
       repeat (cbn [app] in *; rewrite <- app_assoc in * ). cbn [app] in *.
-      destruct (body_ok_parse sr (ctes_size ctes) b stop d Hb Hbf Hstop) as (Hmain & HnW & HnC).
+      destruct (body_ok_parse sr (ctes_size ctes) b stop d Hnm Hb Hbf Hstop) as (Hmain & HnW & HnC).
       { lia. }
       { cbn [length] in Hlen. rewrite ?app_length in Hlen. rewrite ?app_length. lia. }
       unfold parse_statement. cbn [cur]. isT_conc. cbn iota.
@@ -1770,13 +2149,32 @@ Section Stmts.
              replace X with (Val (ast_of_stmt (MkStmt None b), stop) : sres gstmt) by (symmetry; exact Hmain) end; cbn [rewrap bind].
       all: rewrite set_with_body; reflexivity.
     - cbn [with_toks with_size app] in *.
-      destruct (body_ok_parse sr 0 b stop d Hb Hbf Hstop) as (Hmain & HnW & HnC); [lia|exact Hlen|].
+      destruct (body_ok_parse sr 0 b stop d Hnm Hb Hbf Hstop) as (Hmain & HnW & HnC); [lia|exact Hlen|].
       unfold parse_statement. rewrite HnW.
       unfold main_dispatch in Hmain.
       destruct (isT (cur (render_body sr 0 b ++ stop)) TySelect); [exact Hmain|].
       destruct (isT (cur (render_body sr 0 b ++ stop)) TyInsert); [exact Hmain|].
       destruct (isT (cur (render_body sr 0 b ++ stop)) TyUpdate); [exact Hmain|].
       destruct (isT (cur (render_body sr 0 b ++ stop)) TyDelete); [exact Hmain|discriminate Hmain].
+  Qed.
+
+  Theorem parse_stmt_ok : forall (sr : srho) s stop d,
+      stmt_ok s = true -> (d_no_alias_after_column sf = false \/ stmt_bare_alias_free s = true) ->
+      stmt_follow stop ->
+      d + stmt_depth sr s <= md ->
+      length (render_stmt sr s ++ stop) <= fuel ->
+      parse_statement md sf pe d (render_stmt sr s ++ stop) = Val (ast_of_stmt s, stop).
+  Proof.
+    intros sr [w b] stop d Hok Hflag Hstop Hdep Hlen.
+    destruct b as [q|t cols src cf ret|t sets wh ret|t wh ret|m];
+      [apply parse_stmt_ok_nm; [exact I|assumption..] | apply parse_stmt_ok_nm; [exact I|assumption..]
+      | apply parse_stmt_ok_nm; [exact I|assumption..] | apply parse_stmt_ok_nm; [exact I|assumption..] | ].
+    (* MERGE: no WITH clause *)
+    unfold stmt_ok in Hok. cbn [st_with st_body] in Hok. apply andb_prop in Hok. destruct Hok as [Hok Hnw]. apply andb_prop in Hok. destruct Hok as [_ Hm].
+    destruct w as [w|]; [discriminate Hnw|]. cbn [body_ok] in Hm.
+    unfold stmt_depth in Hdep. unfold render_stmt, ast_of_stmt in *. cbn [st_with st_body with_toks with_size app body_depth render_body ast_of_with option_map ast_of_stmt_w] in *.
+    destruct (parse_merge_ok (shift sr 0) m stop d Hm Hstop) as (tail & Etail & Hparse); [lia|exact Hlen|].
+    rewrite Etail. unfold parse_statement. cbn [cur advance]. isT_conc. cbn iota. exact Hparse.
   Qed.
 End Stmts.
 
@@ -1798,5 +2196,18 @@ Example ex_stmt_insert_parse :
   parse_statement_top tree_flags (render_stmt (fun _ _ => no_parens) ex_stmt_insert ++ [Tk TyEOF ""])
   = Val (ast_of_stmt ex_stmt_insert, [Tk TyEOF ""]).
 Proof. vm_compute. reflexivity. Qed.
+Example ex_stmt_merge_parse :
+  parse_statement_top tree_flags (render_stmt (fun _ _ => no_parens) ex_stmt_merge ++ [Tk TyEOF ""])
+  = Val (ast_of_stmt ex_stmt_merge, [Tk TyEOF ""]).
+Proof. vm_compute. reflexivity. Qed.
+(* a grouping set written without parentheses that is not a column reference (PostgreSQL accepts any expression): the
+   parser takes the opening parenthesis of `( a + b ) * c` for the parenthesis of a set and rejects the statement *)
+Example gs_bare_expression_rejected :
+  let s := MkSelect false [] [IExpr (MIdent false "a") None] [MkTable ["t"] None] [] None
+             [GrSets [GsBare (MBin BMul (MBin BAdd (MIdent false "a") (MIdent false "b")) (MIdent false "c"))]] None [] None None None None in
+  map lit (render_select (fun _ _ => no_parens) s)
+  = ["SELECT"; "a"; "FROM"; "t"; "GROUP"; "BY"; "GROUPING SETS"; "("; "("; "a"; "+"; "b"; ")"; "*"; "c"; ")"]
+  /\ parse_statement_top tree_flags (render_select (fun _ _ => no_parens) s ++ [Tk TyEOF ""]) = Err EExpected.
+Proof. split; vm_compute; reflexivity. Qed.
 Example stmt_follow_eof : stmt_follow [Tk TyEOF ""].
 Proof. eexists _, _. split; reflexivity. Qed.
